@@ -45,11 +45,27 @@ What the statements leave open, and how it is treated (no false alarms):
   * pause / stop are allowed to advance simulated time by delay_stop + delay_complete_after_stop plus at most 0.01 s (the
     back end steps just past its own stop / completion events); start, resume, poll advance it by the outside time only.
 
+  (a3) ``ScriptedLocalBackend`` -- the real ``LocalBackend`` (rotate_gpus=False: trial directory layout, std.out parsing with
+       ``retrieve``, stop / pause marker files, return code of the job, "end" time stamp, ``_all_trial_results``, generic poll
+       logic); only the launch of the subprocess in ``_schedule`` is replaced: the worker is played by the monitor, which
+       appends report lines in the Reporter's format to the trial's std.out and sets the return code of a stand-in process
+       object at chosen points.  ``stdout`` and ``_read_status`` are wrapped, so that the worker's remaining writes and its
+       exit can be placed deterministically before the two reads of a poll, BETWEEN them (right after whichever of the two
+       returns first) or after them: every placement of <= 3 reports + exit over the three positions of two consecutive
+       polls is enumerated, through the real Tuner and with a front end which (like the Tuner) stops polling a trial once it
+       was reported as completed.  Clause: a poll whose status says Completed has, together with the polls before it,
+       returned every report the worker wrote (read-order / atomicity of one poll) -- and the C02 clauses above.
+  (c)  resume guard (C01, "only a paused trial is ever resumed; no trial leaves a terminal state"), back ends driven directly
+       (TickBackend, ScriptedLocalBackend, UserBlackboxBackend): ``resume_trial`` of a stopped / completed / failed / running
+       trial raises and changes nothing (state held by the back end, status seen by later polls, no job scheduled, no
+       further results); resuming a paused trial works; checked right after the stop / pause call and again after polls.
+
 Known defects of the pinned tree are kept apart under their own clause names (everything checked inside those scenario
 families is reported under the family's clause, so that the other clauses stay meaningful):
   * ``generic-backend/reports-written-after-a-pause-decision-are-never-delivered-after-resume``  (finding F5)
   * ``start-jobs-without-delay-off/trials-started-when-fewer-jobs-are-busy-than-the-tuner-lists-are-polled-and-delivered`` (F9)
-  * ``simulator/resume-of-a-trial-paused-at-its-final-level-reports-nothing-and-completes``
+The family "resume of a trial paused at its final level" (``simulator/resume-of-a-trial-paused-at-its-final-level-...``) found
+an IndexError in the tabular simulator which has since been repaired in /repo; it is an ordinary clause now.
 
 Bounded stand-in, never counted as proved.
 """
@@ -92,8 +108,12 @@ C_FUTURE = "simulator/result-never-delivered-before-its-time-stamp"
 C_F5 = "generic-backend/reports-written-after-a-pause-decision-are-never-delivered-after-resume"
 C_F9 = "start-jobs-without-delay-off/trials-started-when-fewer-jobs-are-busy-than-the-tuner-lists-are-polled-and-delivered"
 C_FINAL = "simulator/resume-of-a-trial-paused-at-its-final-level-reports-nothing-and-completes"
+C_ATOMIC = "poll-that-reports-completed-has-returned-every-report-the-worker-wrote"
+C_REFUSED = "backend/resume-of-a-stopped-completed-failed-or-running-trial-is-refused"
+C_UNCHANGED = "backend/refused-resume-leaves-the-trial-unchanged-and-no-terminal-state-is-ever-left"
+C_PAUSED_OK = "backend/resume-of-a-paused-trial-works"
 
-CLAUSES = [C_ONCE, C_ORDER, C_AFTER, C_RESUME, C_WHOLE, C_SAME, C_LOG, C_FILE, C_TERM, C_VALUES, C_LEVELS, C_SEED, C_STAMP, C_REPAIR, C_MONO, C_CHARGE, C_FUTURE, C_F5, C_F9, C_FINAL]
+CLAUSES = [C_ONCE, C_ORDER, C_AFTER, C_RESUME, C_WHOLE, C_SAME, C_LOG, C_FILE, C_TERM, C_VALUES, C_LEVELS, C_SEED, C_STAMP, C_REPAIR, C_MONO, C_CHARGE, C_FUTURE, C_F5, C_F9, C_FINAL, C_ATOMIC, C_REFUSED, C_UNCHANGED, C_PAUSED_OK]
 
 REPAIR_STEP = 0.01  # documented minimal step of the back end's monotonicity repair
 MAX_VIOLATIONS_PER_CLAUSE = 5
@@ -173,6 +193,8 @@ def _env():
 
     from syne_tune import Tuner, StoppingCriterion
     from syne_tune.backend.trial_backend import TrialBackend
+    from syne_tune.backend.local_backend import LocalBackend
+    from syne_tune.constants import ST_SAGEMAKER_METRIC_TAG
     from syne_tune.backend.trial_status import Status
     from syne_tune.backend.simulator_backend.simulator_backend import SimulatorConfig
     from syne_tune.backend.simulator_backend.simulator_callback import SimulatorCallback
@@ -255,7 +277,7 @@ def _env():
                 self.mon.new_report(w["run"], m)
 
         def _complete(self, w, when):
-            self.status[w["trial"]] = Status.completed
+            self.status[w["trial"]] = Status.failed if w["run"].script.get("fail") else Status.completed
             self.live.remove(w)
             w["run"].completed_at = when
 
@@ -343,6 +365,127 @@ def _env():
 
         def entrypoint_path(self):
             return Path("c02_native_tick.py")
+
+    class FakeProcess:
+        """stands in for the ``subprocess.Popen`` object of a trial: the worker itself is played by the monitor"""
+
+        def __init__(self):
+            self.returncode = None
+
+        def poll(self):
+            return self.returncode
+
+        def kill(self):
+            if self.returncode is None:
+                self.returncode = -9
+
+        def wait(self, timeout=None):
+            return self.returncode
+
+    class ScriptedLocalBackend(LocalBackend):
+        """the real LocalBackend except for the launch of the subprocess; ``stdout`` / ``_read_status`` are wrapped so that the
+        worker can act right after each of the two reads of a poll.  Slots of a run's script: 3 * (poll since start) + j,
+        j = 0 before the reads of that poll, 1 after the first read returned, 2 after the second read returned"""
+
+        def __init__(self, mon, entry_point):
+            super().__init__(entry_point=entry_point, rotate_gpus=False)
+            self.mon = mon
+            self.tick = 0
+            self.counter = 0
+            self.workers = {}
+            self.in_fetch = False
+            self.in_poll = False
+            self.reads = {}
+            self.scheduled = {}
+
+        def _schedule(self, trial_id, config):
+            trial_path = self.trial_path(trial_id)
+            os.makedirs(trial_path, exist_ok=True)
+            for name in ("std.out", "std.err"):
+                open(trial_path / name, "a").close()
+            proc = FakeProcess()
+            self.trial_subprocess[trial_id] = proc
+            self._busy_trial_id_candidates.add(trial_id)
+            self.scheduled[trial_id] = self.scheduled.get(trial_id, 0) + 1
+            run = self.mon.begin_run(trial_id)
+            self.workers[trial_id] = {"trial": trial_id, "run": run, "proc": proc, "todo": [list(a) for a in run.script["actions"]], "level": run.first_level, "t0": self.tick}
+
+        def _act(self, trial_id, j):
+            w = self.workers.get(trial_id)
+            if w is None:
+                return
+            slot = 3 * (self.tick - w["t0"] - 1) + j
+            while w["todo"] and w["todo"][0][0] <= slot and w["proc"].returncode is None:
+                _, kind = w["todo"].pop(0)
+                if kind == "w":
+                    self.counter += 1
+                    m = {"epoch": w["level"], "loss": 1.0 / (1 + w["level"]) + trial_id, "uid": self.counter, ST_WORKER_TIMESTAMP: float(self.counter)}
+                    w["level"] += 1
+                    with open(self.trial_path(trial_id) / "std.out", "a") as f:
+                        f.write("some log line of the training script\n[%s]: %s\n" % (ST_SAGEMAKER_METRIC_TAG, json.dumps(m)))
+                    self.mon.new_report(w["run"], m)
+                else:
+                    w["proc"].returncode = 0 if kind == "x" else 1
+                    if kind == "x":
+                        w["run"].completed_at = self.tick if j < 2 else self.tick + 0.5
+
+        def _after_read(self, trial_id):
+            if self.in_poll:
+                n = self.reads.get(trial_id, 0) + 1
+                self.reads[trial_id] = n
+                self._act(trial_id, 1 if n == 1 else 2)
+
+        def stdout(self, trial_id):
+            lines = super().stdout(trial_id)
+            self._after_read(trial_id)
+            return lines
+
+        def _read_status(self, trial_id):
+            status = super()._read_status(trial_id)
+            self._after_read(trial_id)
+            return status
+
+        def _all_trial_results(self, trial_ids):
+            self.in_poll = self.in_fetch
+            try:
+                return super()._all_trial_results(trial_ids)
+            finally:
+                self.in_poll = False
+
+        def fetch_status_results(self, trial_ids):
+            self.tick += 1
+            if self.tick > MAX_POLLS:
+                raise ScenarioStuck("more than %d polls" % MAX_POLLS)
+            for t in sorted(self.workers):
+                self._act(t, 0)
+            self.in_fetch, self.reads = True, {}
+            try:
+                out = super().fetch_status_results(trial_ids)
+            finally:
+                self.in_fetch = False
+            for t in sorted(self.workers):
+                self._act(t, 2)
+            self.mon.polled(list(trial_ids), out)
+            return out
+
+        def _pause_trial(self, trial_id, result):
+            self.mon.backend_call("pause", trial_id, result)
+            super()._pause_trial(trial_id, result)
+
+        def _stop_trial(self, trial_id, result):
+            self.mon.backend_call("stop", trial_id, result)
+            super()._stop_trial(trial_id, result)
+
+    class CountingUser(UserBlackboxBackend):
+        """counts the jobs scheduled per trial"""
+
+        scheduled = None
+
+        def _schedule(self, trial_id, config):
+            if self.scheduled is None:
+                self.scheduled = {}
+            self.scheduled[trial_id] = self.scheduled.get(trial_id, 0) + 1
+            super()._schedule(trial_id, config)
 
     class LogCallback(StoreResultsCallback):
         def __init__(self, mon):
@@ -525,6 +668,8 @@ class GenMon(BaseMon):
         self.seen = set()
         self.resume_level = {}
         self.final_tick = None
+        self.returned = set()
+        self.polls = 0
 
     def new_config(self, i):
         return {"x": i}
@@ -548,7 +693,17 @@ class GenMon(BaseMon):
             self.resume_level[trial_id] = int(result["epoch"])
 
     def polled(self, trial_ids, out):
-        pass
+        """read-order / atomicity of one poll: status Completed => every report of that run has been returned by now"""
+        E = _env()
+        self.polls += 1
+        status, results = out
+        for _, res in results:
+            self.returned.add(res.get("uid"))
+        for t in trial_ids:
+            runs = self.runs.get(t)
+            if runs and status[t][1] == E.Status.completed and runs[-1].decision is None:
+                missing = [m["epoch"] for m in runs[-1].reports if m["uid"] not in self.returned]
+                self.ctx.check(C_ATOMIC, not missing, trial=t, run=runs[-1].k, poll=self.polls, levels_written_by_the_worker=[m["epoch"] for m in runs[-1].reports], levels_not_returned_although_status_is_completed=missing)
 
     def deliver(self, trial, result):
         ctx = self.ctx
@@ -608,6 +763,19 @@ class GenMon(BaseMon):
 
     def file_rows(self):
         return [(t, uid, float(res["loss"])) for t, uid, _, res in self.sched_seq]
+
+
+class LocalMon(GenMon):
+    """ScriptedLocalBackend: a run's script is a list of [slot, action] (action w = write a report, x = exit 0, f = exit 1)"""
+
+    def begin_run(self, trial_id):
+        runs = self.runs.setdefault(trial_id, [])
+        run = Run(trial_id, len(runs))
+        scripts = self.spec["trials"][trial_id]["runs"] if trial_id < len(self.spec["trials"]) else []
+        run.script = scripts[run.k] if run.k < len(scripts) else {"actions": [[0, "w"], [0, "x"]]}
+        run.first_level = self.resume_level.get(trial_id, 0) + 1
+        runs.append(run)
+        return run
 
 
 class SimMon(BaseMon):
@@ -881,18 +1049,44 @@ def run_generic(E, ctx, spec, route=None):
     return mon
 
 
-def run_generic_direct(E, ctx, spec, route=None):
+def _local_backend(E, mon):
+    _COUNTER[0] += 1
+    backend = E.ScriptedLocalBackend(mon, entry_point=os.path.abspath(__file__))
+    backend.set_path(os.path.join(os.environ["SYNETUNE_FOLDER"], "c02n-local-%d-%d" % (os.getpid(), _COUNTER[0])))
+    return backend
+
+
+def run_local(E, ctx, spec, route=None):
+    """real Tuner.run on the real LocalBackend whose worker is played by the monitor"""
+    ctx.begin(spec, route)
+    mon = LocalMon(ctx, spec)
+    backend = _local_backend(E, mon)
+    cb = E.LogCallback(mon)
+    tuner, err = _run_tuner(E, ctx, mon, backend, cb, {"x": E.randint(0, 99)}, spec)
+    mon.finish(backend.tick)
+    _check_file(E, ctx, mon, tuner, "uid")
+    shutil.rmtree(tuner.tuner_path, ignore_errors=True)
+    return mon
+
+
+def run_generic_direct(E, ctx, spec, route=None, local=False):
     """the same worker model and ghost log, but WITHOUT the Tuner: a minimal front end which polls EVERY trial it ever started
     (also paused, stopping and stopped ones) at every tick, so that hiding the results of such trials is the back end's job
-    alone (``TrialBackend.fetch_status_results``); results after a decision in the same batch are skipped like the Tuner does"""
+    alone (``TrialBackend.fetch_status_results``); results after a decision in the same batch are skipped like the Tuner does.
+    With ``local`` the back end is ScriptedLocalBackend and the front end polls, like the Tuner, only trials which have not
+    been reported as completed / failed and have not been stopped or paused"""
     from types import SimpleNamespace
 
     ctx.begin(spec, route)
-    mon = GenMon(ctx, spec)
-    backend = E.TickBackend(mon, spec.get("stamp_mode", "tick"))
+    if local:
+        mon = LocalMon(ctx, spec)
+        backend = _local_backend(E, mon)
+    else:
+        mon = GenMon(ctx, spec)
+        backend = E.TickBackend(mon, spec.get("stamp_mode", "tick"))
     active, started, exhausted, err, idle = set(), [], False, None, 0
     try:
-        while idle < 4:
+        while idle < (1 if local else 4):
             while not exhausted and len(active) < spec["n_workers"]:
                 act = mon.next_suggestion(backend.new_trial_id())
                 if act is None:
@@ -904,7 +1098,9 @@ def run_generic_direct(E, ctx, spec, route=None):
                 else:
                     backend.resume_trial(act[1])
                     active.add(act[1])
-            status, results = backend.fetch_status_results(list(started))
+            if local and exhausted and not active:
+                break
+            status, results = backend.fetch_status_results(sorted(active) if local else list(started))
             done = set()
             for tid, res in results:
                 if tid in done:
@@ -919,7 +1115,7 @@ def run_generic_direct(E, ctx, spec, route=None):
                     done.add(tid)
                     active.discard(tid)
             for tid, (_, st) in status.items():
-                if st == E.Status.completed:
+                if st in (E.Status.completed, E.Status.failed):
                     active.discard(tid)
             # a few more polls after the last job ended, so that late output of stopping workers becomes visible
             idle = idle + 1 if (exhausted and not active) else 0
@@ -927,6 +1123,8 @@ def run_generic_direct(E, ctx, spec, route=None):
         err = "%s: %s | %s" % (type(exc).__name__, exc, traceback.format_exc()[-700:])
     ctx.check(C_TERM, err is None, exception=err, events=[list(e) for e in mon.events[-8:]])
     mon.finish(backend.tick, with_log=False)
+    if local:
+        shutil.rmtree(backend.local_path, ignore_errors=True)
     return mon
 
 
@@ -1067,6 +1265,156 @@ def generic_enumeration(tier):
                                     else:
                                         f5.append(dict(spec, family="generic-late-reports-after-pause-then-resume"))
     return regular, f5
+
+
+def local_enumeration():
+    """one subject trial on ScriptedLocalBackend: n <= 3 reports followed by exit 0, each of the n + 1 worker actions placed at
+    one of the 6 positions (before the reads / between the two reads / after the reads) of the first two polls, in order;
+    optionally a second worker with a filler trial, optionally STOP at the first report"""
+    out = []
+    for n in (1, 2, 3):
+        for slots in itertools.combinations_with_replacement(range(6), n + 1):
+            actions = [[sl, "w"] for sl in slots[:-1]] + [[slots[-1], "x"]]
+            k = len(out)
+            n_workers = 2 if k % 3 == 2 else 1
+            filler = [{"runs": [{"actions": [[1, "w"], [4, "w"], [4, "x"]]}]}] if n_workers == 2 else []
+            spec = {"family": "local-backend-interleaving", "n_workers": n_workers, "n_trials": n_workers, "trials": [{"runs": [{"actions": actions}]}] + filler, "decisions": {}, "plan": ["N"] * n_workers, "resume_rest": True}
+            if k % 7 == 5:
+                spec["decisions"] = {"0:1": [STOP]}
+            out.append(spec)
+    return out
+
+
+# --------------------------------------------------------------------------------------------------------------
+# resume guard (back ends driven directly)
+# --------------------------------------------------------------------------------------------------------------
+ROLES = ["stopped", "completed", "failed", "running", "paused"]
+
+
+def run_resume_guard(E, ctx, flavour, variant):
+    """trials 0..4 are brought into the states stopped / completed / failed (not on the simulator) / running / paused, then
+    ``resume_trial`` is tried on each: refused unless paused, and nothing changes.  variant bit 0: poll between the stop /
+    pause calls and the first attempts; bit 1: resume the paused trial before (instead of after) the refused attempts"""
+    S = E.Status
+    roles = [r for r in ROLES if not (flavour == "simulator" and r == "failed")]
+    spec = {"family": "resume-guard", "back_end": flavour, "variant": variant, "roles": roles, "decisions": {}, "plan": [], "n_trials": len(roles), "n_workers": len(roles)}
+    long_ = 40
+    if flavour == "tick":
+        scripts = {
+            "stopped": [_script([1] + [0] * long_, 5)],
+            "completed": [_script([1], 0)],
+            "failed": [dict(_script([1], 0), fail=True)],
+            "running": [_script([1] * long_, 5)],
+            "paused": [_script([1] + [0] * long_, 5), _script([0, 1], 0)],
+        }
+        spec["trials"] = [{"runs": scripts[r]} for r in roles]
+        ctx.begin(spec)
+        mon = GenMon(ctx, spec)
+        backend = E.TickBackend(mon, "counter")
+        scheduled = lambda t: len(mon.runs.get(t, []))
+        before_poll = lambda: None
+        cleanup = lambda: None
+    elif flavour == "local":
+        scripts = {
+            "stopped": [{"actions": [[0, "w"]]}],
+            "completed": [{"actions": [[0, "w"], [1, "x"]]}],
+            "failed": [{"actions": [[0, "w"], [0, "f"]]}],
+            "running": [{"actions": [[3 * i, "w"] for i in range(long_)]}],
+            "paused": [{"actions": [[0, "w"]]}, {"actions": [[3, "w"], [4, "x"]]}],
+        }
+        spec["trials"] = [{"runs": scripts[r]} for r in roles]
+        ctx.begin(spec)
+        mon = LocalMon(ctx, spec)
+        backend = _local_backend(E, mon)
+        scheduled = lambda t: backend.scheduled.get(t, 0)
+        before_poll = lambda: None
+        cleanup = lambda: shutil.rmtree(backend.local_path, ignore_errors=True)
+    else:
+        ctx.begin(spec)
+        mon = None
+        n_fid = 4
+        el = np.zeros((2, 1, n_fid))
+        el[0, 0] = [1.0, 2.0, 3.0, 4.0]  # fast: complete at the first poll
+        el[1, 0] = [10.0, 20.0, 30.0, 400.0]
+        backend = E.CountingUser(blackbox=make_blackbox(E, make_table(2, 1, el)), elapsed_time_attr="elapsed", seed=0)
+        backend.time_keeper.start_of_time()
+        scheduled = lambda t: (backend.scheduled or {}).get(t, 0)
+        before_poll = lambda: backend.time_keeper.advance(12.0)
+        cleanup = lambda: None
+    ids, last, got, err = {}, {}, {}, None
+    state_of = lambda t: getattr(backend._trial_dict.get(t), "status", None)
+
+    def poll():
+        before_poll()
+        status, results = backend.fetch_status_results(sorted(ids.values()))
+        for t, res in results:
+            last[t] = res
+            got[t] = got.get(t, 0) + 1
+        return {t: st for t, (_, st) in status.items()}
+
+    def expect_status(status, when, skip=()):
+        want = {"stopped": S.stopped, "completed": S.completed, "failed": S.failed, "running": S.in_progress, "paused": S.paused}
+        for r in roles:
+            if r in skip:
+                continue
+            ctx.check(C_UNCHANGED, status[ids[r]] == want[r], when=when, role=r, trial=ids[r], status_seen_by_poll=status[ids[r]], expected=want[r])
+
+    def attempt(role, when, refused=True):
+        t = ids[role]
+        before = (scheduled(t), state_of(t), got.get(t, 0))
+        raised = None
+        try:
+            backend.resume_trial(t)
+        except Exception as exc:
+            raised = "%s: %s" % (type(exc).__name__, str(exc)[:120])
+        after = (scheduled(t), state_of(t), got.get(t, 0))
+        info = dict(when=when, role=role, trial=t, raised=raised, jobs_scheduled_and_state_before=list(before), after=list(after))
+        if refused:
+            ctx.check(C_REFUSED, raised is not None, **info)
+            ctx.check(C_UNCHANGED, after == before, **info)
+        else:
+            ctx.check(C_PAUSED_OK, raised is None and after[0] == before[0] + 1 and after[1] == S.in_progress, **info)
+
+    try:
+        for r in roles:
+            cfg = {"x": len(ids)} if flavour != "simulator" else {"x": 0 if r == "completed" else 1, "y": 1 if r == "completed" else 0}
+            ids[r] = backend.start_trial(cfg).trial_id
+        status = poll()
+        ctx.check(C_UNCHANGED, all(t in last for t in ids.values()), when="first poll", what="every trial has reported once", reported=sorted(last))
+        backend.stop_trial(ids["stopped"], last.get(ids["stopped"]))
+        backend.pause_trial(ids["paused"], last.get(ids["paused"]))
+        if variant & 1:
+            expect_status(poll(), "poll after stop / pause")
+        paused_resumed = False
+        if variant & 2:
+            attempt("paused", "right after pause", refused=False)
+            paused_resumed = True
+        for r in roles[:-1]:
+            attempt(r, "first round")
+        frozen = {r: got.get(ids[r], 0) for r in roles if r in ("stopped", "completed", "failed")}
+        expect_status(poll(), "poll after the first round", skip=("paused",) if paused_resumed else ())
+        if not paused_resumed:
+            attempt("paused", "after a poll", refused=False)
+        for r in roles[:-1]:
+            attempt(r, "second round")
+        attempt("paused", "resumed trial is running", refused=True)
+        for _ in range(3):
+            status = poll()
+        # the second run of the formerly paused trial has reported and completed by now (simulator: it runs on)
+        ctx.check(C_PAUSED_OK, got.get(ids["paused"], 0) >= 2, when="end", what="the resumed run delivers results", results_of_the_trial=got.get(ids["paused"], 0))
+        if flavour != "simulator":
+            ctx.check(C_UNCHANGED, status[ids["paused"]] == S.completed, when="end", role="resumed then completed", status_seen_by_poll=status[ids["paused"]])
+            attempt("paused", "resumed trial has completed", refused=True)
+        for r in roles[:-1]:
+            attempt(r, "third round")
+        status = poll()
+        expect_status(status, "last poll", skip=("paused",))
+        for r, n0 in frozen.items():
+            ctx.check(C_UNCHANGED, got.get(ids[r], 0) == n0, when="end", role=r, what="no further results of a trial in a terminal state", results_before=n0, results_now=got.get(ids[r], 0))
+    except Exception as exc:
+        err = "%s: %s | %s" % (type(exc).__name__, exc, traceback.format_exc()[-700:])
+    ctx.check(C_TERM, err is None, exception=err)
+    cleanup()
 
 
 def generic_random(rs, n, late_after_pause_resumed=False, busy_lag=False):
@@ -1385,6 +1733,20 @@ def monitor_delivery(tier="quick", seed=0):
         for spec in generic_random(rs, n["completion-between-poll-and-busy-query"], busy_lag=True):
             spec["family"] = "generic-start-jobs-without-delay-off-completion-between-poll-and-busy-query"
             run_generic(E, ctx, spec, route=C_F9)
+        # (a3) the real LocalBackend with a worker played by the monitor: placement of the last writes / exit relative to the
+        # two reads of a poll
+        local = local_enumeration()
+        if not thorough:
+            local = local[seed % 3 :: 3]
+        for spec in local:
+            run_local(E, ctx, spec)
+            run_generic_direct(E, ctx, dict(spec, family="local-backend-interleaving-direct"), local=True)
+        n["local-backend-interleaving(tuner+direct)"] = 2 * len(local)
+        # (c) resume guard
+        for flavour in ("tick", "local", "simulator"):
+            for variant in range(4):
+                run_resume_guard(E, ctx, flavour, variant)
+        n["resume-guard"] = 12
         # (a2) + (b) simulator back end under the real Tuner
         enum = sim_enumeration(tier)
         enum = enum[seed % 2 :: 2] if thorough else enum[seed % 8 :: 8]
